@@ -965,3 +965,28 @@ fire("c12-import-traces-through-append", "C12", ["C12.verbatim"],
      ("x/cfevesting/genesis.go", "		k.SetVestingAccountTrace(ctx, elem)", "		k.AppendVestingAccountTrace(ctx, elem)"))
 fire("c19-rate-from-truncated-amount", "C19", ["C19.sameprecision"],
      (MINTYPES, "	mintedYearly := epochAmount.MulInt64(int64(year)).QuoInt64(epoch)", "	mintedYearly := sdk.NewDecFromInt(epochAmount.TruncateInt()).MulInt64(int64(year)).QuoInt64(epoch)"))
+# ---------------- round-7 rules ----------------
+LOOKUP_OLD = "	for _, details := range signatureAlgorithmDetails {\n		if details.name == name {\n			return details.algo, nil\n		}\n	}\n"
+fire("c15-alglookup-prefix-match", "C15", ["C15.alglookup"],
+     (SIGUTIL, LOOKUP_OLD, "	for _, details := range signatureAlgorithmDetails {\n		if len(name) >= len(details.name) && name[:len(details.name)] == details.name {\n			return details.algo, nil\n		}\n	}\n"))
+fire("c15-alglookup-default-algorithm", "C15", ["C15.alglookup"],
+     (SIGUTIL, LOOKUP_OLD + "	return -1, sdkerrors.Wrap(sdkerrors.ErrNotSupported, \"signature algorithm not supported\")", LOOKUP_OLD + "	if name == \"\" {\n		return signatureAlgorithmDetails[0].algo, nil\n	}\n	return -1, sdkerrors.Wrap(sdkerrors.ErrNotSupported, \"signature algorithm not supported\")"))
+silent("c15-alglookup-index-loop-operands-swapped", "C15",
+       (SIGUTIL, LOOKUP_OLD, "	for i := range signatureAlgorithmDetails {\n		if name == signatureAlgorithmDetails[i].name {\n			return signatureAlgorithmDetails[i].algo, nil\n		}\n	}\n"))
+GENV = "x/cfevesting/genesis.go"
+IMPORT_POOLS_OLD = "	for _, av := range allAccountVestingPools {\n		k.Logger(ctx).Debug(\"set account vesting pools\", \"accountVestingPool\", av)\n		k.SetAccountVestingPools(ctx, *av)\n	}"
+fire("c12-importall-skips-owner-without-pools", "C12", ["C12.importall"],
+     (GENV, IMPORT_POOLS_OLD, "	for _, av := range allAccountVestingPools {\n		if len(av.VestingPools) == 0 {\n			continue\n		}\n		k.Logger(ctx).Debug(\"set account vesting pools\", \"accountVestingPool\", av)\n		k.SetAccountVestingPools(ctx, *av)\n	}"))
+fire("c12-importall-stops-at-first-empty-owner", "C12", ["C12.importall"],
+     (GENV, IMPORT_POOLS_OLD, "	for _, av := range allAccountVestingPools {\n		if av.Owner == \"\" {\n			break\n		}\n		k.Logger(ctx).Debug(\"set account vesting pools\", \"accountVestingPool\", av)\n		k.SetAccountVestingPools(ctx, *av)\n	}"))
+silent("c12-importall-loop-behind-length-test", "C12",
+       (GENV, IMPORT_POOLS_OLD, "	if len(allAccountVestingPools) > 0 {\n		for i := 0; i < len(allAccountVestingPools); i++ {\n			av := allAccountVestingPools[i]\n			k.Logger(ctx).Debug(\"set account vesting pools\", \"accountVestingPool\", av)\n			k.SetAccountVestingPools(ctx, *av)\n		}\n	}"))
+EVENT_OLD = "		if withdrawable.IsPositive() {\n			events = append(events, types.WithdrawAvailable{\n				Owner:           owner,\n				VestingPoolName: vestingPool.Name,\n				Amount:          withdrawable.String() + denom,\n			})\n		}\n	}"
+fire("c18-guard-event-needs-second-condition", "C18", ["C18.guard"],
+     (VESTGO, EVENT_OLD, "		if withdrawable.IsPositive() && vestingPool.GetCurrentlyLocked().IsPositive() {\n			events = append(events, types.WithdrawAvailable{\n				Owner:           owner,\n				VestingPoolName: vestingPool.Name,\n				Amount:          withdrawable.String() + denom,\n			})\n		}\n	}"))
+silent("c18-guard-continue-on-zero", "C18",
+       (VESTGO, EVENT_OLD, "		if withdrawable.IsZero() {\n			continue\n		}\n		events = append(events, types.WithdrawAvailable{\n			Owner:           owner,\n			VestingPoolName: vestingPool.Name,\n			Amount:          withdrawable.String() + denom,\n		})\n	}"))
+fire("c08-vested-alternative-ignores-free", "C08", ["C08.vested"],
+     (VESTGO, "	startTime := lockEnd\n	if lockEnd.Before(ctx.BlockTime()) {\n		startTime = ctx.BlockTime()\n	}\n\n	_, err := k.newContinuousVestingAccount(", "	startTime := lockEnd\n	if lockEnd.Before(ctx.BlockTime()) {\n		startTime = ctx.BlockTime()\n		originalVesting = sdk.NewCoins(coinToSend)\n	}\n\n	_, err := k.newContinuousVestingAccount("))
+fire("c17-split-success-return-before-lookup", "C17", ["C17.split"],
+     (SPLIT, "	vAcc, found := k.GetVestingAccountTrace(ctx, from.String())", "	if amount.IsZero() {\n		return nil\n	}\n	vAcc, found := k.GetVestingAccountTrace(ctx, from.String())"))
